@@ -28,8 +28,12 @@
 (* definition, property, items, allOf member, additionalProperties, body    *)
 (* schema and response schema.                                              *)
 (*                                                                          *)
+(* Array parameters, form parameters and response headers carry each        *)
+(* collectionFormat their location allows (SerParamAtoms and the cf. atoms   *)
+(* of FormAtoms / RespAtoms), nested arrays an inner one.                    *)
+(*                                                                          *)
 (* Outside the universe (the statement leaves them open or they are not     *)
-(* convertible): collectionFormat, schemes without host,                    *)
+(* convertible): schemes without host,                                      *)
 (* form parameters without form `consumes`, external references, examples.  *)
 (***************************************************************************)
 EXTENDS DocJson
@@ -57,11 +61,24 @@ ArrU == << U("minItems", KV("minItems", I(1))), U("maxItems", KV("maxItems", I(3
            U("itemsInt", KV("items", O(KV("type", S("integer")) @@ KV("minimum", I(1))))),
            U("itemsEnum", KV("items", O(KV("type", S("string")) @@ KV("enum", A(<<S("ab"), S("b")>>))))) >>
 
-TypeCat == << [t |-> "string", base |-> KV("type", S("string")), us |-> StrU],
-              [t |-> "integer", base |-> KV("type", S("integer")), us |-> IntU],
-              [t |-> "number", base |-> KV("type", S("number")), us |-> NumU],
-              [t |-> "boolean", base |-> KV("type", S("boolean")), us |-> BoolU],
-              [t |-> "array", base |-> KV("type", S("array")) @@ KV("items", O(KV("type", S("string")))), us |-> ArrU] >>
+(* the same keywords with the values a hand-written copy loses first: zero, false, the empty string, a negative number *)
+(* (each set is consistent, so that any two of its units make a valid schema: the default satisfies the bounds)         *)
+Str0U == << U("default", KV("default", S(""))), U("maxLength", KV("maxLength", I(0))), U("enum", KV("enum", A(<<S(""), S("b")>>))) >>
+Int0U == << U("minimum", KV("minimum", I(0))), U("maximum", KV("maximum", I(0))), U("default", KV("default", I(0))),
+            U("enum", KV("enum", A(<<I(0), I(1)>>))), U("minimumNeg", KV("minimum", I(0 - 1))) >>
+Bool0U == << U("default", KV("default", B(FALSE))) >>
+Arr0U == << U("maxItems", KV("maxItems", I(0))) >>
+
+(* z: a category of zero values (its bare member would repeat the bare member of the type) *)
+TypeCat == << [t |-> "string", base |-> KV("type", S("string")), us |-> StrU, z |-> FALSE],
+              [t |-> "integer", base |-> KV("type", S("integer")), us |-> IntU, z |-> FALSE],
+              [t |-> "number", base |-> KV("type", S("number")), us |-> NumU, z |-> FALSE],
+              [t |-> "boolean", base |-> KV("type", S("boolean")), us |-> BoolU, z |-> FALSE],
+              [t |-> "array", base |-> KV("type", S("array")) @@ KV("items", O(KV("type", S("string")))), us |-> ArrU, z |-> FALSE],
+              [t |-> "string/0", base |-> KV("type", S("string")), us |-> Str0U, z |-> TRUE],
+              [t |-> "integer/0", base |-> KV("type", S("integer")), us |-> Int0U, z |-> TRUE],
+              [t |-> "boolean/0", base |-> KV("type", S("boolean")), us |-> Bool0U, z |-> TRUE],
+              [t |-> "array/0", base |-> KV("type", S("array")) @@ KV("items", O(KV("type", S("string")))), us |-> Arr0U, z |-> TRUE] >>
 
 FName(us, ix) == IF Len(ix) = 0 THEN "bare" ELSE IF Len(ix) = 1 THEN us[ix[1]].n ELSE us[ix[1]].n \o "+" \o us[ix[2]].n
 FFun(us, ix) == IF Len(ix) = 0 THEN <<>> ELSE IF Len(ix) = 1 THEN us[ix[1]].f ELSE us[ix[1]].f @@ us[ix[2]].f
@@ -74,13 +91,49 @@ PairIdx(us, maxk) == {<<>>} \cup {<<i>> : i \in DOMAIN us}
 
 (* parameter-like keyword sets: [id, f] with f the keyword function (type included) *)
 PL(maxk) == UNION {{[id |-> TypeCat[ti].t \o "." \o FName(TypeCat[ti].us, ix), nk |-> Len(ix),
-                     f |-> FFun(TypeCat[ti].us, ix) @@ TypeCat[ti].base] : ix \in PairIdx(TypeCat[ti].us, maxk)}
+                     f |-> FFun(TypeCat[ti].us, ix) @@ TypeCat[ti].base]
+                       : ix \in {x \in PairIdx(TypeCat[ti].us, maxk) : x # <<>> \/ ~TypeCat[ti].z}}
                    : ti \in DOMAIN TypeCat}
 Prm(in, name, req, f) == O(KV("in", S(in)) @@ KV("name", S(name)) @@ If(req, KV("required", B(TRUE))) @@ f)
 RefTo(r) == O(KV("$ref", S(r)))
 PetRef == RefTo("#/definitions/Pet")
 Pet == O(KV("type", S("object")) @@ KV("required", A(<<S("id")>>))
          @@ KV("properties", O(KV("id", O(KV("type", S("integer")))) @@ KV("tag", O(KV("type", S("string")))))))
+
+(* --------------------------------------------------- array serialisation atoms *)
+(* OpenAPI 2 says how an array parameter is written on the wire with collectionFormat: csv (the default), ssv, tsv,    *)
+(* pipes - legal for every parameter location, for response headers and for the items of a nested array - and multi   *)
+(* (query and formData only).  Every format goes to every place that can carry it: an array parameter of a valid      *)
+(* OpenAPI 2 document, whatever its location and collectionFormat, must come out as a valid OpenAPI 3 parameter with  *)
+(* the same constraints; what the contract says about the serialisation itself is in Api23 (SerDiffs).                *)
+CFs == {"csv", "ssv", "tsv", "pipes", "multi"}
+CFsAt(in) == IF in \in {"query", "formData"} THEN CFs ELSE CFs \ {"multi"}
+ArrCF(cf, more) == KV("type", S("array")) @@ KV("items", O(KV("type", S("string")))) @@ KV("collectionFormat", S(cf)) @@ more
+(* an array of arrays: the inner array states its own format *)
+ArrArrCF(outer, inner) ==
+   KV("type", S("array")) @@ If(outer # "", KV("collectionFormat", S(outer)))
+   @@ KV("items", O(KV("type", S("array")) @@ KV("collectionFormat", S(inner)) @@ KV("items", O(KV("type", S("integer")) @@ KV("minimum", I(1))))))
+
+SerParamAtoms ==
+   UNION {{Atom("param", "q@op:cf." \o cf, "param:op:query:q", "op", "", Prm("query", "q", FALSE, ArrCF(cf, KV("minItems", I(1)))), Nul,
+                IF cf = "csv" THEN 1 ELSE IF cf = "pipes" THEN 2 ELSE 3),
+           Atom("param", "q@path:cf." \o cf, "param:path:query:q", "path", "", Prm("query", "q", FALSE, ArrCF(cf, <<>>)), Nul, 3),
+           Atom("param", "q@shared:cf." \o cf, "param:op:query:q", "shared", "P_q", Prm("query", "q", TRUE, ArrCF(cf, KV("uniqueItems", B(TRUE)))), Nul,
+                IF cf = "multi" THEN 2 ELSE 3)}
+          : cf \in CFsAt("query")}
+   \cup
+   UNION {{Atom("param", "h@op:cf." \o cf, "param:op:header:X-H", "op", "", Prm("header", "X-H", TRUE, ArrCF(cf, KV("maxItems", I(3)))), Nul,
+                IF cf = "pipes" THEN 1 ELSE IF cf = "ssv" THEN 2 ELSE 3),
+           Atom("param", "h@shared:cf." \o cf, "param:op:header:X-H", "shared", "P_h", Prm("header", "X-H", FALSE, ArrCF(cf, <<>>)), Nul, 3),
+           Atom("param", "id@op:cf." \o cf, "param:op:path:id", "op", "", Prm("path", "id", TRUE, ArrCF(cf, KV("minItems", I(1)))), Nul,
+                IF cf = "ssv" THEN 2 ELSE 3),
+           Atom("param", "id@path:cf." \o cf, "param:path:path:id", "path", "", Prm("path", "id", TRUE, ArrCF(cf, <<>>)), Nul, 3)}
+          : cf \in CFsAt("header")}
+   \cup
+   {Atom("param", "q@op:cf.items." \o x[1] \o "." \o x[2], "param:op:query:q", "op", "", Prm("query", "q", FALSE, ArrArrCF(x[1], x[2])), Nul, 3)
+      : x \in {<<"", "pipes">>, <<"multi", "csv">>, <<"csv", "ssv">>, <<"pipes", "tsv">>}}
+   \cup
+   {Atom("param", "h@op:cf.items.pipes", "param:op:header:X-H", "op", "", Prm("header", "X-H", FALSE, ArrArrCF("", "pipes")), Nul, 3)}
 
 (* ------------------------------------------------------------ parameter atoms *)
 IsCoreId(id, ids) == id \in ids
@@ -137,6 +190,7 @@ ParamAtoms ==
     Atom("param", "body+requestBody@query", "param:op2:query:body", "op2", "", Prm("query", "body", FALSE, KV("type", S("string"))),
          Prm("query", "requestBody", FALSE, KV("type", S("string"))), 1),
     Atom("param", "z@op2:query", "param:op2:query:zz", "op2", "", Prm("query", "zz", TRUE, KV("type", S("integer")) @@ KV("minimum", I(1))), Nul, 2)}
+   \cup SerParamAtoms
 
 (* ----------------------------------------------------------------- form atoms *)
 Ext == KV("x-internal-id", S("u1"))
@@ -164,6 +218,18 @@ FormAtoms ==
          Atom("form", "file@shared+ext:required", "form:file", "shared", "UploadBlob", Prm("formData", "file", TRUE, KV("type", S("file")) @@ Ext), Nul, 1),
          Atom("form", "f1@op+ext:required", "form:f1", "op", "", Prm("formData", "f1", TRUE, KV("type", S("string")) @@ Ext), Nul, 2),
          Atom("form", "file@op+ext", "form:file", "op", "", Prm("formData", "file", FALSE, KV("type", S("file")) @@ Ext), Nul, 2)}
+   \cup \* the same key in two namespaces that OpenAPI 3 keeps in one: a shared form parameter stored under the key of a
+        \* definition (Pet is always there; D when a def atom is combined with it).  ToV3 keeps shared form parameters
+        \* as component schemas, next to the definitions.
+   {Atom("form", "f1@shared=Pet", "form:f1", "shared", "Pet", Prm("formData", "f1", FALSE, KV("type", S("string")) @@ KV("minLength", I(1))), Nul, 2),
+    Atom("form", "f2@shared=Pet:required", "form:f2", "shared", "Pet", Prm("formData", "f2", TRUE, KV("type", S("integer")) @@ KV("maximum", I(9))), Nul, 3),
+    Atom("form", "file@shared=Pet", "form:file", "shared", "Pet", Prm("formData", "file", FALSE, KV("type", S("file"))), Nul, 3),
+    Atom("form", "f1@shared=D", "form:f1", "shared", "D", Prm("formData", "f1", FALSE, KV("type", S("string")) @@ KV("pattern", S("^a"))), Nul, 2)}
+   \cup \* array form parameters in each collectionFormat (inline and shared)
+   UNION {{Atom("form", "f1@op:cf." \o cf, "form:f1", "op", "", Prm("formData", "f1", FALSE, ArrCF(cf, KV("minItems", I(1)))), Nul,
+                IF cf = "multi" THEN 2 ELSE 3),
+           Atom("form", "f1@shared:cf." \o cf, "form:f1", "shared", "F_f1", Prm("formData", "f1", TRUE, ArrCF(cf, <<>>)), Nul, 3)}
+          : cf \in CFsAt("formData")}
 
 (* ------------------------------------------------------------------- schemas *)
 Sc(id, s, c) == [id |-> id, s |-> s, c |-> c]
@@ -187,6 +253,21 @@ ObjSchemas ==
     Sc("discriminator", O(TObj @@ KV("discriminator", S("kind")) @@ KV("required", A(<<S("kind")>>))
                            @@ KV("properties", O(KV("kind", StrSchema)))), 1),
     Sc("allOf", O(KV("allOf", A(<<PetRef, O(TObj @@ KV("properties", O(KV("b", O(KV("type", S("integer")))))))>>))), 1),
+    \* `required` is a constraint of its own: the names it lists need not be keys of the schema's own `properties`.
+    \* The composition idiom (a member of allOf requires a property that the referenced parent declares), a name only
+    \* additionalProperties admits, a name nobody declares, `required` without any `properties`, `required` next to allOf.
+    Sc("allOfRequiresParentProp", O(KV("allOf", A(<<PetRef, O(TObj @@ KV("required", A(<<S("tag"), S("b")>>))
+                                                              @@ KV("properties", O(KV("b", O(KV("type", S("integer")))))))>>))), 1),
+    Sc("requiredUndeclared", O(TObj @@ PropA(StrSchema) @@ KV("required", A(<<S("a"), S("z")>>))), 2),
+    Sc("requiredOnlyUndeclared", O(TObj @@ PropA(StrSchema) @@ KV("required", A(<<S("z")>>))), 3),
+    Sc("requiredNoProperties", O(TObj @@ KV("required", A(<<S("z")>>))), 2),
+    Sc("requiredByAp", O(TObj @@ PropA(StrSchema) @@ KV("additionalProperties", O(KV("type", S("integer"))))
+                          @@ KV("required", A(<<S("k")>>))), 3),
+    Sc("requiredNextToAllOf", O(KV("allOf", A(<<PetRef>>)) @@ KV("required", A(<<S("tag")>>))), 3),
+    Sc("requiredOneOfTwo", O(TObj @@ KV("properties", O(KV("a", StrSchema) @@ KV("b", O(KV("type", S("integer"))))))
+                              @@ KV("required", A(<<S("b")>>))), 3),
+    Sc("nestedRequiresUndeclared", O(TObj @@ PropA(O(TObj @@ KV("required", A(<<S("b"), S("z")>>))
+                                   @@ KV("properties", O(KV("b", O(KV("type", S("string"))))))))), 3),
     Sc("nullableObj", O(TObj @@ KV("x-nullable", B(TRUE))), 2),
     Sc("nullableStr", O(KV("type", S("string")) @@ KV("x-nullable", B(TRUE))), 1),
     \* nullable AND enumerated: the enum is the enum (null is admitted by the flag, not by a new member)
@@ -210,6 +291,11 @@ SchemaCat(maxk) == LeafSchemas(maxk) \cup ObjSchemas
 BodyPrm(name, req, s) == O(KV("in", S("body")) @@ KV("name", S(name)) @@ If(req, KV("required", B(TRUE))) @@ KV("schema", s))
 RespObj(desc, s) == O(KV("description", S(desc)) @@ KV("schema", s))
 
+Wrap(w, s) == CASE w = "prop" -> O(TObj @@ KV("properties", O(KV("n", s))))
+                 [] w = "items" -> O(KV("type", S("array")) @@ KV("items", s))
+                 [] w = "allOf" -> O(KV("allOf", A(<<s>>)))
+                 [] w = "ap" -> O(TObj @@ KV("additionalProperties", s))
+
 SchemaAtoms ==
    \* definitions: the schema itself (keywords also in pairs), and at the nested places
    {Atom("def", "D:" \o sc.id, "def:D", "", "D", sc.s, Nul, sc.c) : sc \in SchemaCat(FieldK)}
@@ -220,6 +306,12 @@ SchemaAtoms ==
                 Atom("body", "body:" \o sc.id, "body", "op", "", BodyPrm("body", FALSE, sc.s), Nul, IF sc.c <= 2 THEN 2 ELSE 3),
                 Atom("resp", "200:" \o sc.id, "resp:200", "op", "200", RespObj("fine", sc.s), Nul, IF sc.c <= 2 THEN 2 ELSE 3)}
                : sc \in SchemaCat(1)}
+   \cup \* two levels of nesting: every pair of nesting positions (property, items, allOf member, additionalProperties)
+        \* around the schemas whose conversion is more than a copy (reference, x-nullable, discriminator, `required`
+        \* naming a parent's property, file / binary, a keyword pair)
+   {Atom("def", "D." \o w[1] \o "." \o w[2] \o ":" \o sc.id, "def:D", "", "D", Wrap(w[1], Wrap(w[2], sc.s)), Nul, 3)
+      : w \in {"prop", "items", "allOf", "ap"} \X {"prop", "items", "allOf", "ap"},
+        sc \in {x \in SchemaCat(1) : x.id \in {"ref", "nullableStr", "discriminator", "allOfRequiresParentProp", "integer.exclusiveMinimum"}}}
    \cup {Atom("def", "D:selfRef", "def:D", "", "D", O(TObj @@ KV("properties", O(KV("next", RefTo("#/definitions/D"))))), Nul, 2),
          Atom("def", "D:refToD2", "def:D", "", "D", O(TObj @@ KV("properties", O(KV("other", RefTo("#/definitions/Pet")) @@ KV("self", RefTo("#/definitions/D"))))), Nul, 3)}
 
@@ -239,7 +331,9 @@ BodyAtoms ==
          O(KV("type", S("array")) @@ KV("items", O(KV("type", S("string")) @@ KV("x-nullable", B(TRUE)))))), Nul, 1),
     Atom("body", "body:shared.xnull", "body", "shared", "B1", BodyPrm("body", FALSE,
          O(TObj @@ PropA(O(KV("type", S("string")) @@ KV("x-nullable", B(TRUE)))))), Nul, 1),
-    Atom("body", "body:arrayOfRef", "body", "op", "", BodyPrm("body", TRUE, O(KV("type", S("array")) @@ KV("items", PetRef))), Nul, 2)}
+    Atom("body", "body:arrayOfRef", "body", "op", "", BodyPrm("body", TRUE, O(KV("type", S("array")) @@ KV("items", PetRef))), Nul, 2),
+    \* a shared body parameter stored under the key of the definition it refers to (request bodies are a namespace of their own in OpenAPI 3)
+    Atom("body", "body:shared=Pet", "body", "shared", "Pet", BodyPrm("pet", TRUE, PetRef), Nul, 2)}
 
 Hdr(f) == O(f)
 RespAtoms ==
@@ -247,6 +341,13 @@ RespAtoms ==
    {Atom("resp", "200.header:" \o p.id, "resp:200", "op", "200",
          O(KV("description", S("fine")) @@ KV("headers", O(KV("X-Rate", Hdr(p.f))))), Nul,
          IF p.id = "integer.minimum" THEN 1 ELSE IF p.nk <= 1 THEN 2 ELSE 3) : p \in PL(FieldK)}
+   \cup \* array response headers in each collectionFormat (inline response, shared response)
+   UNION {{Atom("resp", "200.header:cf." \o cf, "resp:200", "op", "200",
+                O(KV("description", S("fine")) @@ KV("headers", O(KV("X-Rate", Hdr(ArrCF(cf, KV("maxItems", I(3)))))))), Nul,
+                IF cf = "pipes" THEN 2 ELSE 3),
+           Atom("resp", "default:shared.header:cf." \o cf, "resp:default", "shared", "default",
+                O(KV("description", S("problem")) @@ KV("headers", O(KV("X-Why", Hdr(ArrCF(cf, <<>>)))))), Nul, 3)}
+          : cf \in CFsAt("header")}
    \cup
    {Atom("resp", "404:ref", "resp:404", "op", "404", RespObj("not found", PetRef), Nul, 1),
     Atom("resp", "200:xnull.prop", "resp:200", "op", "200", RespObj("fine",
@@ -290,6 +391,13 @@ SecAtoms ==
                              <<"oaPassword", "none">>, <<"oaApp", "global">>, <<"keyAuthz", "global">>} THEN 1 ELSE 2)
       : s \in SecSchemes, w \in {"global", "op", "none"}}
    \cup {Atom("secnone", "security:[]@op", "secnone", "op", "", Nul, Nul, 1)}
+   \cup \* one requirement that names two schemes (both must be satisfied), the second with scopes
+   {Atom("secand", "basic&oauth@" \o w, "secand", w, "",
+         O(KV("andBasic", O(KV("type", S("basic"))))
+           @@ KV("andOauth", O(KV("type", S("oauth2")) @@ KV("flow", S("application"))
+                                @@ KV("tokenUrl", S("https://h.example/token")) @@ KV("scopes", Scopes)))),
+         O(KV("andBasic", A(<<>>)) @@ KV("andOauth", A(<<S("read"), S("write")>>))), IF w = "op" THEN 2 ELSE 3)
+      : w \in {"global", "op"}}
 
 (* ---------------------------------------------- servers, media types, methods *)
 Srv(id, h, b, ss, c) == Atom("server", "server:" \o id, "server", "", "",
@@ -349,6 +457,9 @@ Compatible(X) ==
    /\ \A a, b \in X : a # b => /\ a.slot # b.slot
                                /\ (a.n = "" \/ a.k # b.k \/ a.n # b.n)
    /\ ~(\E a, b \in X : a.k = "body" /\ b.k = "form")
+   \* shared parameters of whatever kind live in one namespace (#/parameters/): one key, one parameter
+   /\ \A a, b \in X : (a # b /\ {a.k, b.k} \subseteq {"param", "body", "form"}
+                          /\ {a.w, b.w} \subseteq {"shared", "sharedpath"}) => a.n # b.n
    \* a shared parameter that brings a shared response of the same key occupies the default response
    /\ \A a \in X : (a.k = "param" /\ a.w \in {"shared", "sharedpath"} /\ a.x.t = "obj") =>
          /\ ~\E b \in X : b.k = "resp" /\ b.n = "default"
@@ -358,8 +469,8 @@ Compatible(X) ==
          /\ (\E b \in X : b.k = "body") => ~IsFormMt(a)
          /\ (\E b \in X : b.k = "form" /\ Opt(b.v, "type") = S("file")) => a.n \in {"multi", "both"}
          /\ Cardinality(X) > 1 => \E b \in X : b.k \in {"body", "form"}
-   /\ \A a \in X : a.k = "secnone" => ~\E b \in X : b.k = "sec" /\ b.w = "op"
-   /\ \A a \in X : a.k = "nopaths" => \A b \in X : b.k \in {"nopaths", "def", "server"} \/ (b.k = "sec" /\ b.w # "op")
+   /\ \A a \in X : a.k = "secnone" => ~\E b \in X : b.k \in {"sec", "secand"} /\ b.w = "op"
+   /\ \A a \in X : a.k = "nopaths" => \A b \in X : b.k \in {"nopaths", "def", "server"} \/ (b.k \in {"sec", "secand"} /\ b.w # "op")
    \* an extra operation on /a shares the path: the path parameter must then sit on the path item
    /\ \A a \in X : (a.k = "method" /\ a.w = "") =>
          ~\E b \in X : b.k = "param" /\ b.w \in {"op", "shared"} /\ Opt(b.v, "in") = S("path")
@@ -392,13 +503,16 @@ Build(X) ==
        reqOf(a) == O(KV(a.n, a.x))
        opSec == {a \in secs : a.w = "op"}
        glSec == {a \in secs : a.w = "global"}
+       ands == Ks("secand")
+       opReqs == {reqOf(a) : a \in opSec} \cup {a.x : a \in {b \in ands : b.w = "op"}}
+       glReqs == {reqOf(a) : a \in glSec} \cup {a.x : a \in {b \in ands : b.w = "global"}}
        cons == Ks("consumes")
        prod == Ks("produces")
        needMultipart == Ks("form") # {} /\ cons = {}
        op1 == O(KV("operationId", S("getA"))
                 @@ If(opParams1 # {}, KV("parameters", A(SetToSeq(opParams1))))
                 @@ KV("responses", O([c \in codes |-> respOf(c)]))
-                @@ If(opSec # {}, KV("security", A(SetToSeq({reqOf(a) : a \in opSec}))))
+                @@ If(opReqs # {}, KV("security", A(SetToSeq(opReqs))))
                 @@ If(Ks("secnone") # {}, KV("security", A(<<>>)))
                 @@ If(\E a \in prod : a.w = "op", KV("produces", (CHOOSE a \in prod : TRUE).v)))
        item1 == O(KV("get", op1)
@@ -420,8 +534,10 @@ Build(X) ==
         @@ If(sharedR # {} \/ prX # {},
               KV("responses", O([n \in {a.n : a \in prX} |-> (CHOOSE a \in prX : a.n = n).x]
                                 @@ [n \in {"R_" \o a.n : a \in sharedR} |-> (CHOOSE a \in sharedR : "R_" \o a.n = n).v])))
-        @@ If(secs # {}, KV("securityDefinitions", O([n \in {a.n : a \in secs} |-> (CHOOSE a \in secs : a.n = n).v])))
-        @@ If(glSec # {}, KV("security", A(SetToSeq({reqOf(a) : a \in glSec}))))
+        @@ If(secs # {} \/ ands # {},
+              KV("securityDefinitions", O([n \in {a.n : a \in secs} |-> (CHOOSE a \in secs : a.n = n).v]
+                                          @@ (IF ands # {} THEN (CHOOSE a \in ands : TRUE).v.m ELSE <<>>))))
+        @@ If(glReqs # {}, KV("security", A(SetToSeq(glReqs))))
         @@ If(\E a \in cons : a.w = "doc", KV("consumes", (CHOOSE a \in cons : TRUE).v))
         @@ If(\E a \in prod : a.w = "doc", KV("produces", (CHOOSE a \in prod : TRUE).v))
         @@ server)
